@@ -44,6 +44,9 @@ def main():
             {"name": "rapidcheck-pbt", "path": "harness/pbt_main.cpp",
              "serves_properties": sorted(k for k in PLAN),
              "kind_free_text": "rapidcheck generates and shrinks choice tapes; harness/*.cpp decode them into structured cases (LPs, configurations, edit histories, files), each case runs in a forked child against the ASan+UBSan build of /repo"},
+            {"name": "libfuzzer", "path": "harness/fz_main.cpp",
+             "serves_properties": sorted(k for k in PLAN if any(r.get("kind") == "fuzz" for r in PLAN[k]["runs"])),
+             "kind_free_text": "clang libFuzzer targets (-fsanitize=fuzzer,address,undefined; library rebuilt with fuzzer-no-link) for the LP / MPS / basis / gzip readers with the semantic oracle inside the target"},
             {"name": "driver", "path": "check",
              "serves_properties": sorted(k for k in PLAN),
              "kind_free_text": "python3 driver: rebuilds /repo's working tree, shards seeds over 16 cores, replays regression corpus, minimises (delta debugging on op lists) and 3x-confirms failures, writes evidence"},
